@@ -38,6 +38,9 @@ def targeted():
     for body in ['(PUSH("a") ~ "x")? ~ (DROP | "a")', '(PUSH(ANY) ~ "b" | ANY) ~ (PEEK | ANY)', '(PUSH("a") ~ "b")* ~ (POP | "a")', '(PUSH(ANY) ~ POP ~ "x" | ANY ~ ANY) ~ DROP?', 'PUSH(ANY) ~ (POP ~ "x")? ~ DROP',
                  '(PUSH("a") | "b") ~ (POP_ALL ~ "x" | ANY*)', '!(PUSH("a")) ~ DROP | ANY', 'PUSH(ANY) ~ (DROP ~ "x" | PEEK)', '(PUSH("a") ~ PUSH("b") ~ "x")? ~ PEEK_ALL']:
         out += [g(body), g(body, "", '"b"', "", '_{ " " }')]
+    for bmod in gramgen.MODS:
+        for bbody in ['"a" ~ "b"', '"a" | "b"', '^"a"', '"a"+', "'a'..'b'", '"a" ~ "b" | "b"', '"ab"']:
+            out += [g('(!b ~ ANY)* ~ b?', "@", bbody, bmod, '_{ " " }'), g('(!(b | "c") ~ ANY)*', "@", bbody, bmod, '_{ " " }'), g('(!b ~ ANY)*', "@", bbody, bmod)]
     # near-miss permutations of every rewrite pattern (a pass must fire only on its own shape)
     ab = ['"a"', '"b"']
     import itertools
